@@ -1,7 +1,7 @@
 """C15 - see properties.jsonl; DESIGN.md section 5."""
 from ._generic import run_property
 
-EXPLANATION = 'Bounded stand-in, exhaustive within the stated bound: the compiled _assemble_objects driven page by page against spec.assembly.record_assemble, and whole nested files from the independent encoder through to_pandas.'
+EXPLANATION = 'Mixed. P: cencoding._assemble_objects from the .pyx: the level loop run for ONE ARBITRARY level entry under a coupling invariant between the code state and an abstract Dremel record-assembly state (six spec cases: new row / continued row x first entry of a page / row carried over from the previous page), exit obligations over the whole output array, index safety; schema.max_repetition_level / max_definition_level == number of REPEATED / non-REQUIRED elements on the path, list / map shape predicates; core.read_col and read_data_page_v2 hand the kernel the right levels, dictionary, null flag, max level and row index (row index carried between pages), map key/value zipping; refuted obligations are known findings (.pyx defects recorded, not repairable here); lifting from one level entry to a page and from pages to a chunk is argued. B (labelled bounded), exhaustive within the stated bound: the compiled _assemble_objects driven page by page against spec.assembly.record_assemble, and whole nested files from the independent encoder through to_pandas.'
 
 
 def p_parts():
@@ -10,7 +10,7 @@ def p_parts():
 
 
 def run(ctx):
-    return run_property(ctx, 'exploration', EXPLANATION, p_parts=p_parts(), b_modules=['c15_assembly'],
+    return run_property(ctx, 'other', EXPLANATION, p_parts=p_parts(), b_modules=['c15_assembly'],
                         assumptions=["pandas / numpy / cramjam behaviour inside every opaque value",
                                      "the oracle (plain pandas / the spec library under /verif/spec) is a faithful reading of the property"],
                         trusted=["bounded layer: enumerated inputs only; nothing outside the stated bound is covered"])
